@@ -7,7 +7,7 @@ From Interval Require Import Tactic.
 Import ListNotations.
 From PV Require Import Proofs.ExpODE Proofs.ExpODE2 Proofs.ExpODE3.
 From PV Require Import Base.Num Base.RTac Model.LieGroup Model.LieExp Model.LieLog Proofs.LieGroup Proofs.LieExp
-  Proofs.LieLog Proofs.LieLog2.
+  Proofs.LieLog Proofs.LieLog2 Proofs.LieLog3.
 Local Open Scope R_scope.
 #[local] Remove Hints NumQ NumZ : typeclass_instances.
 
@@ -424,3 +424,252 @@ Proof.
       * exists 0. split; [|rewrite Rabs_R0; lra].
         rewrite log_exp_so3_model by auto. destruct x as [[a b] c]. lie_unfold. split_pairs; ring.
 Qed.
+
+(* rxso3: Log (Exp x) for every |phi| < pi, every sigma *)
+Lemma log_exp_rxso3_all (eps : R) (x : vec3R * R) : 0 <= eps -> eps <= 1 / 1024 -> vnorm (fst x) < PI ->
+  exists r, RxSO3_log eps (rxso3_exp eps x) = (vscale (1 + r) (fst x), snd x) /\ Rabs r <= 2 * eps.
+Proof.
+  intros He He2 Hpi. destruct x as [phi sg]. cbn [fst snd] in *.
+  destruct (log_exp_so3_all eps phi He He2 Hpi) as (r & E & Hr). exists r. split; [|exact Hr].
+  unfold RxSO3_log, rxso3_exp. cbn [fst snd tln texp TransR]. now rewrite E, ln_exp.
+Qed.
+
+(* ------------------------------------------------------------------ SE3 / Sim3: the translation is restored exactly by
+   Exp o Log whenever the angle of Log q is in (eps, 2 pi) - regimes 1 AND 2 (angle pi) of SO3_Log; no unit-norm
+   hypothesis is needed for this part *)
+Lemma exp_log_SE3_transl (eps : R) (X : se3R) : 0 <= eps ->
+  eps < vnorm (SO3_log eps (snd X)) -> vnorm (SO3_log eps (snd X)) < 2 * PI ->
+  se3_exp eps (SE3_log eps X) = (fst X, so3_exp eps (SO3_log eps (snd X))).
+Proof.
+  intros He Hlo Hhi. destruct X as [t q]. cbn [fst snd] in *. unfold se3_exp, SE3_log. cbn [fst snd].
+  rewrite mvmul_mmul3, (mmul3_inv_comm _ _ (so3_Jl_inv_Jl eps (SO3_log eps q) He Hlo Hhi)), mvmul_id. reflexivity.
+Qed.
+Lemma exp_log_Sim3_transl (eps : R) (X : sim3R) : 0 <= eps -> 0 < snd (snd X) ->
+  eps < vnorm (SO3_log eps (fst (snd X))) -> vnorm (SO3_log eps (fst (snd X))) < 2 * PI ->
+  sim3_exp eps (Sim3_log eps X) = (fst X, (so3_exp eps (SO3_log eps (fst (snd X))), snd (snd X))).
+Proof.
+  intros He Hs Hlo Hhi. destruct X as [t [q s]]. cbn [fst snd] in *. unfold sim3_exp, Sim3_log. cbn [fst snd].
+  rewrite (exp_log_RxSO3_gen eps (q, s) Hs). cbn [fst snd].
+  rewrite mvmul_mmul3. unfold RxSO3_log. cbn [fst snd].
+  rewrite minv3_r, mvmul_id; [reflexivity|]. apply rxso3_Ws_det; auto.
+Qed.
+(* hence for every unit quaternion with |v| > eps (all angles from the identity regime up to and including pi,
+   both hemispheres): translation and scale exact, rotation within sqrt 2 eps of q resp. -q *)
+Lemma exp_log_SE3_regime12 (eps : R) (X : se3R) : 0 <= eps -> eps <= 1 / 1024 -> unitq (snd X) -> eps < vnorm (qv (snd X)) ->
+  fst (se3_exp eps (SE3_log eps X)) = fst X /\
+  qdist2 (snd (se3_exp eps (SE3_log eps X))) (qscale (pm (qw (snd X))) (snd X)) <= 2 * (eps * eps).
+Proof.
+  intros He He2 Hu Hv. pose proof PI_RGT_0 as Hpi. pose proof PI2_3_2 as Hpi2.
+  assert (Hlog : eps < vnorm (SO3_log eps (snd X)) < 2 * PI).
+  { destruct (Rlt_or_le eps (Rabs (qw (snd X)))) as [Hw|Hw].
+    - pose proof (SO3_log_norm_gt_eps eps _ He Hv Hw Hu). pose proof (SO3_log_norm_regime1 eps _ Hv Hw He). lra.
+    - rewrite (SO3_log_norm_regime2 eps _ Hv Hw He). lra. }
+  rewrite exp_log_SE3_transl by (auto; lra). cbn [fst snd]. split; [reflexivity|]. now apply exp_log_SO3_all.
+Qed.
+Lemma exp_log_Sim3_regime12 (eps : R) (X : sim3R) : 0 <= eps -> eps <= 1 / 1024 -> unitq (fst (snd X)) ->
+  eps < vnorm (qv (fst (snd X))) -> 0 < snd (snd X) ->
+  fst (sim3_exp eps (Sim3_log eps X)) = fst X /\ snd (snd (sim3_exp eps (Sim3_log eps X))) = snd (snd X) /\
+  qdist2 (fst (snd (sim3_exp eps (Sim3_log eps X)))) (qscale (pm (qw (fst (snd X)))) (fst (snd X))) <= 2 * (eps * eps).
+Proof.
+  intros He He2 Hu Hv Hs. pose proof PI_RGT_0 as Hpi. pose proof PI2_3_2 as Hpi2.
+  assert (Hlog : eps < vnorm (SO3_log eps (fst (snd X))) < 2 * PI).
+  { destruct (Rlt_or_le eps (Rabs (qw (fst (snd X))))) as [Hw|Hw].
+    - pose proof (SO3_log_norm_gt_eps eps _ He Hv Hw Hu). pose proof (SO3_log_norm_regime1 eps _ Hv Hw He). lra.
+    - rewrite (SO3_log_norm_regime2 eps _ Hv Hw He). lra. }
+  rewrite exp_log_Sim3_transl by (auto; lra). cbn [fst snd]. split; [reflexivity|]. split; [reflexivity|].
+  now apply exp_log_SO3_all.
+Qed.
+
+(* ------------------------------------------------------------------ det rxso3_Ws <> 0 also on the small-angle branches *)
+Lemma exp_h_pos (s : R) : s <> 0 -> 0 < 1 + (s - 1) * exp s.
+Proof.
+  intros Hs. destruct (Rle_or_lt 1 s) as [H1|H1].
+  - pose proof (exp_pos s). nra.
+  - pose proof (exp_ineq1 (- s) ltac:(lra)) as Hi. rewrite exp_Ropp in Hi.
+    pose proof (exp_pos s) as Hp. set (E := exp s) in *. clearbody E.
+    assert (Hm : (1 - s) * E < 1).
+    { apply Rmult_lt_reg_r with (/ E); [now apply Rinv_0_lt_compat|].
+      replace ((1 - s) * E * / E) with (1 - s) by (field; lra). lra. }
+    lra.
+Qed.
+(* C ((C - B n)^2 + A^2 n) <> 0 when C <> 0, A <> 0, n >= 0 - whatever B is *)
+Lemma det_form_nonzero (A B C n : R) : C <> 0 -> A <> 0 -> 0 <= n ->
+  C * ((C - B * n) * (C - B * n) + A * A * n) <> 0.
+Proof.
+  intros HC HA Hn. apply Rmult_integral_contrapositive. split; [exact HC|]. apply Rgt_not_eq.
+  pose proof (Rle_0_sqr (C - B * n)) as Q. unfold Rsqr in Q.
+  destruct (Req_dec n 0) as [->|Hn0].
+  - replace (C - B * 0) with C in * by ring. assert (0 < C * C) by nra. nra.
+  - assert (0 < A * A * n) by (apply Rmult_lt_0_compat; nra). unfold Rgt. lra.
+Qed.
+Lemma rxso3_Ws_det_small (eps : R) (phi : vec3R) (sg : R) : 0 <= eps -> vnorm phi <= eps ->
+  mdet3 (rxso3_Ws eps (phi, sg)) <> 0.
+Proof.
+  intros He Hx. pose proof (vnorm_sq phi) as Hn. pose proof (vnorm_nonneg phi) as Hp.
+  unfold rxso3_Ws, rxso3_Ws_coef. cbn [fst snd].
+  replace (ltb eps (vnorm phi)) with false by (symmetry; cbn; apply Rltb_false; exact Hx).
+  set (t := vnorm phi) in *. clearbody t. destruct phi as [[x y] z].
+  assert (Hn' : x * x + y * y + z * z = t * t) by (revert Hn; lie_unfold; intros; lra). clear Hn.
+  destruct (Rlt_dec eps (Rabs sg)) as [Hs|Hs].
+  - rewrite (absF_ltb_true eps sg Hs). rewrite mdet3_poly_K, Hn'. cbn [texp TransR]. num_unfold.
+    assert (Hsg : sg <> 0) by (intros ->; rewrite Rabs_R0 in Hs; lra).
+    pose proof (exp_neq_1 sg Hsg) as HE. pose proof (exp_h_pos sg Hsg) as Hh.
+    set (E := exp sg) in *. clearbody E.
+    apply det_form_nonzero.
+    + unfold Rdiv. apply Rmult_integral_contrapositive. split; [lra|now apply Rinv_neq_0_compat].
+    + apply Rgt_not_eq. apply Rdiv_lt_0_compat; [lra|nra].
+    + nra.
+  - rewrite (absF_ltb_false eps sg ltac:(lra)). rewrite mdet3_poly_K, Hn'. num_unfold.
+    apply Rgt_not_eq. set (n := t * t). assert (0 <= n) by (unfold n; nra). clearbody n.
+    replace (1 * ((1 - 1 / 6 * n) * (1 - 1 / 6 * n) + 1 / 2 * (1 / 2) * n)) with ((1 - n / 6) * (1 - n / 6) + n / 4) by field.
+    destruct (Rle_or_lt n 1); nra.
+Qed.
+Lemma rxso3_Ws_det_all (eps : R) (phi : vec3R) (sg : R) : 0 <= eps -> vnorm phi < 2 * PI ->
+  mdet3 (rxso3_Ws eps (phi, sg)) <> 0.
+Proof.
+  intros He Hpi. destruct (Rle_or_lt (vnorm phi) eps) as [H|H].
+  - now apply rxso3_Ws_det_small.
+  - now apply rxso3_Ws_det.
+Qed.
+
+(* Sim3: EVERY unit quaternion (all three regimes), every positive scale, every translation:
+   Exp (Log X) restores translation and scale exactly and the quaternion within sqrt 2 eps of q resp. -q *)
+Lemma exp_log_Sim3_all (eps : R) (X : sim3R) : 0 <= eps -> eps <= 1 / 1024 -> unitq (fst (snd X)) -> 0 < snd (snd X) ->
+  fst (sim3_exp eps (Sim3_log eps X)) = fst X /\ snd (snd (sim3_exp eps (Sim3_log eps X))) = snd (snd X) /\
+  qdist2 (fst (snd (sim3_exp eps (Sim3_log eps X)))) (qscale (pm (qw (fst (snd X)))) (fst (snd X))) <= 2 * (eps * eps).
+Proof.
+  intros He He2 Hu Hs.
+  assert (E : sim3_exp eps (Sim3_log eps X) = (fst X, (so3_exp eps (SO3_log eps (fst (snd X))), snd (snd X)))).
+  { destruct X as [t [q s]]. cbn [fst snd] in *.
+    unfold sim3_exp, Sim3_log. cbn [fst snd]. rewrite (exp_log_RxSO3_gen eps (q, s) Hs). cbn [fst snd].
+    rewrite mvmul_mmul3. unfold RxSO3_log. cbn [fst snd].
+    rewrite minv3_r, mvmul_id; [reflexivity|]. apply rxso3_Ws_det_all; auto.
+    pose proof (SO3_log_norm_le_pi eps q He ltac:(lra) Hu). pose proof PI_RGT_0. lra. }
+  rewrite E. cbn [fst snd]. split; [reflexivity|]. split; [reflexivity|]. now apply exp_log_SO3_all.
+Qed.
+Lemma exp_log_RxSO3_all (eps : R) (X : rxso3R) : 0 <= eps -> eps <= 1 / 1024 -> unitq (fst X) -> 0 < snd X ->
+  snd (rxso3_exp eps (RxSO3_log eps X)) = snd X /\
+  qdist2 (fst (rxso3_exp eps (RxSO3_log eps X))) (qscale (pm (qw (fst X))) (fst X)) <= 2 * (eps * eps).
+Proof.
+  intros He He2 Hu Hs. rewrite exp_log_RxSO3_gen by exact Hs. cbn [fst snd]. split; [reflexivity|].
+  now apply exp_log_SO3_all.
+Qed.
+
+(* ------------------------------------------------------------------ SE3, small angle of Log q (<= eps): Jl and Jl_inv are
+   both on their Taylor branches and Jl Jl_inv = I - n^2/1440 K + (n^2/1440 - n/720) K^2, n = theta^2 *)
+Lemma Jl_Jl_inv_taylor (eps : R) (x : vec3R) : vnorm x <= eps ->
+  let n := vnorm x * vnorm x in
+  mmul3 (so3_Jl eps x) (so3_Jl_inv eps x) = polyK x 1 (- (n * n) / 1440) (- n / 720 + n * n / 1440).
+Proof.
+  intros Hx n. pose proof (vnorm_sq x) as Hn. unfold so3_Jl, so3_Jl_coef, so3_Jl_inv, so3_Jl_inv_coef.
+  replace (ltb eps (vnorm x)) with false by (symmetry; cbn; apply Rltb_false; exact Hx).
+  cbn [fst snd]. cbv zeta. num_simpl. fold n. fold n in Hn. clearbody n. destruct x as [[a b] c].
+  assert (Hn' : a * a + b * b + c * c = n) by (revert Hn; lie_unfold; intros; lra). clear Hn. num_unfold.
+  match goal with |- mmul3 ?J ?Ji = _ =>
+    replace J with (polyK (a, b, c) 1 (1 / 2 - 1 / 24 * n) (1 / 6 - 1 / 120 * n))
+      by (unfold polyK; lie_unfold; split_pairs; ring);
+    replace Ji with (polyK (a, b, c) 1 (- (1 / 2)) (1 / 12)) by (unfold polyK; lie_unfold; split_pairs; ring) end.
+  rewrite polyK_mul. cbv zeta. rewrite Hn'. apply polyK_ext; field.
+Qed.
+(* |(alpha K + beta K^2) t|^2 <= (2 alpha^2 n + 2 beta^2 n^2) |t|^2 *)
+Lemma polyK_dev_bound (a b c al be : R) (t : vec3R) :
+  let n := a * a + b * b + c * c in
+  let d := vsub (mvmul (polyK (a, b, c) 1 al be) t) t in
+  vdot d d <= (2 * (al * al) * n + 2 * (be * be) * (n * n)) * vdot t t.
+Proof.
+  cbv zeta. destruct t as [[u v] w]. unfold polyK. lie_unfold.
+  set (p1 := b * w - c * v). set (p2 := c * u - a * w). set (p3 := a * v - b * u).
+  set (r1 := b * p3 - c * p2). set (r2 := c * p1 - a * p3). set (r3 := a * p2 - b * p1).
+  set (dd := a * u + b * v + c * w). set (n := a * a + b * b + c * c).
+  apply Rminus_le.
+  match goal with |- ?L - ?Rr <= 0 =>
+    replace (L - Rr) with (- ((al * p1 - be * r1) * (al * p1 - be * r1) + (al * p2 - be * r2) * (al * p2 - be * r2)
+                              + (al * p3 - be * r3) * (al * p3 - be * r3) + 2 * (al * al) * (dd * dd) + 2 * (be * be) * n * (dd * dd)))
+      by (unfold r1, r2, r3, p1, p2, p3, dd, n; ring) end.
+  assert (0 <= n) by (unfold n; nra).
+  pose proof (Rle_0_sqr (al * p1 - be * r1)). pose proof (Rle_0_sqr (al * p2 - be * r2)). pose proof (Rle_0_sqr (al * p3 - be * r3)).
+  pose proof (Rle_0_sqr dd). pose proof (Rle_0_sqr al). pose proof (Rle_0_sqr be). unfold Rsqr in *.
+  assert (0 <= 2 * (al * al) * (dd * dd)) by (apply Rmult_le_pos; nra).
+  assert (0 <= 2 * (be * be) * n * (dd * dd)) by (apply Rmult_le_pos; [apply Rmult_le_pos; nra|nra]).
+  lra.
+Qed.
+
+(* SE3: EVERY unit quaternion, every translation: Exp (Log X) has the quaternion within sqrt 2 eps of q resp. -q and
+   the translation within eps^4/316 |t| of t (exactly t unless the angle of Log q is <= eps) *)
+Lemma exp_log_SE3_all (eps : R) (X : se3R) : 0 <= eps -> eps <= 1 / 1024 -> unitq (snd X) ->
+  let Y := se3_exp eps (SE3_log eps X) in
+  let d := vsub (fst Y) (fst X) in
+  vdot d d <= eps ^ 8 / 100000 * vdot (fst X) (fst X) /\
+  qdist2 (snd Y) (qscale (pm (qw (snd X))) (snd X)) <= 2 * (eps * eps).
+Proof.
+  intros He He2 Hu. cbv zeta. destruct X as [t q]. cbn [fst snd] in *. unfold se3_exp, SE3_log. cbn [fst snd].
+  split; [|now apply exp_log_SO3_all].
+  assert (HT : 0 <= vdot t t) by (destruct t as [[u v] w]; lie_unfold; nra).
+  assert (He8 : 0 <= eps ^ 8) by (apply pow_le; lra).
+  pose proof (SO3_log_norm_le_pi eps q He ltac:(lra) Hu) as Hpi. pose proof PI_RGT_0 as Hpi0.
+  set (phi := SO3_log eps q) in *. clearbody phi. rewrite mvmul_mmul3.
+  destruct (Rlt_or_le eps (vnorm phi)) as [Hlo|Hlo].
+  - rewrite (mmul3_inv_comm _ _ (so3_Jl_inv_Jl eps phi He Hlo ltac:(lra))), mvmul_id.
+    replace (vdot (vsub t t) (vsub t t)) with 0 by (destruct t as [[u v] w]; lie_unfold; ring).
+    apply Rmult_le_pos; [|exact HT]. apply Rmult_le_pos; [exact He8|lra].
+  - rewrite (Jl_Jl_inv_taylor eps phi Hlo). cbv zeta.
+    pose proof (vnorm_sq phi) as Hn. pose proof (vnorm_nonneg phi) as Hp.
+    set (n := vnorm phi * vnorm phi) in *.
+    assert (Hn0 : 0 <= n <= eps * eps) by (unfold n; nra).
+    destruct phi as [[a b] c].
+    assert (Hn' : a * a + b * b + c * c = n) by (revert Hn; lie_unfold; intros; lra).
+    eapply Rle_trans; [apply polyK_dev_bound|]. rewrite Hn'. apply Rmult_le_compat_r; [exact HT|].
+    clearbody n. clear - Hn0 He He2 He8.
+    assert (Hn4 : n * n * (n * n) <= eps ^ 8).
+    { replace (eps ^ 8) with (eps * eps * (eps * eps) * (eps * eps * (eps * eps))) by ring.
+      assert (0 <= n * n <= eps * eps * (eps * eps)) by nra. nra. }
+    assert (Hn1 : n <= 1) by nra.
+    set (al := - (n * n) / 1440). set (be := - n / 720 + n * n / 1440).
+    assert (Hal : al * al * n <= n * n * (n * n) / 2073600).
+    { unfold al. replace (- (n * n) / 1440 * (- (n * n) / 1440) * n) with (n * n * (n * n) / 2073600 * n) by field.
+      rewrite <- (Rmult_1_r (n * n * (n * n) / 2073600)) at 2. apply Rmult_le_compat_l; [|lra].
+      apply Rmult_le_pos; [nra|lra]. }
+    assert (Hbe : be * be <= n * n / 518400).
+    { assert (- (n / 720) <= be <= 0) by (unfold be; nra). replace (n * n / 518400) with (n / 720 * (n / 720)) by field. nra. }
+    assert (Hbe2 : be * be * (n * n) <= n * n * (n * n) / 518400).
+    { replace (n * n * (n * n) / 518400) with (n * n / 518400 * (n * n)) by field. apply Rmult_le_compat_r; [nra|exact Hbe]. }
+    assert (0 <= n * n * (n * n)) by nra.
+    clearbody al be. lra.
+Qed.
+
+(* ------------------------------------------------------------------ beyond pi: Log is the PRINCIPAL logarithm.
+   For pi < theta < 2 pi, Log (Exp x) is not x but the equivalent rotation vector of angle 2 pi - theta < pi
+   about the opposite axis: ((theta - 2 pi)/theta) x *)
+Lemma log_exp_so3_beyond_pi (eps : R) (x : vec3R) : 0 <= eps -> eps < vnorm x -> PI < vnorm x -> vnorm x < 2 * PI ->
+  eps < sin (vnorm x / 2) -> eps < - cos (vnorm x / 2) ->
+  SO3_log eps (so3_exp eps x) = vscale ((vnorm x - 2 * PI) / vnorm x) x /\
+  vnorm (SO3_log eps (so3_exp eps x)) = 2 * PI - vnorm x.
+Proof.
+  intros He Hx Hlo Hhi Hs Hc. rewrite so3_exp_is_cf by exact Hx.
+  pose proof (vnorm_qv_exp_cf x ltac:(lra) Hhi) as Hvn.
+  assert (E : SO3_log eps (so3_exp_cf x) = vscale ((vnorm x - 2 * PI) / vnorm x) x).
+  { unfold SO3_log, SO3_log_factor. rewrite Hvn.
+    unfold so3_exp_cf. cbn [qv qw fst snd]. cbv zeta.
+    set (t := vnorm x) in *. clearbody t.
+    replace (ltb eps (sin (t / 2))) with true by (symmetry; cbn; apply Rltb_true; exact Hs).
+    rewrite absF_R, (Rabs_left (cos (t / 2))) by lra.
+    replace (ltb eps (- cos (t / 2))) with true by (symmetry; cbn; apply Rltb_true; exact Hc).
+    num_simpl.
+    assert (Hat : atan (sin (t / 2) / cos (t / 2)) = t / 2 - PI).
+    { rewrite <- (atan_tan (t / 2 - PI)) by (split; lra). f_equal. unfold tan.
+      replace (t / 2 - PI) with (- (PI - t / 2)) by ring. rewrite sin_neg, cos_neg.
+      rewrite sin_PI_x. replace (cos (PI - t / 2)) with (- cos (t / 2)).
+      - field. lra.
+      - replace (PI - t / 2) with (- (t / 2) + PI) by ring. rewrite neg_cos, cos_neg. reflexivity. }
+    rewrite Hat, vscale_vscale. f_equal. field. split; lra. }
+  split; [exact E|]. rewrite E, vnorm_scale.
+  set (t := vnorm x) in *. clearbody t.
+  rewrite Rabs_left.
+  - field. lra.
+  - apply Ropp_lt_cancel. rewrite Ropp_0.
+    replace (- ((t - 2 * PI) / t)) with ((2 * PI - t) / t) by (field; lra). apply Rdiv_lt_0_compat; lra.
+Qed.
+
+Lemma hyps_beyond_pi_ok : let x : vec3R := (4, 0, 0) in
+  0 <= eps64 /\ eps64 < vnorm x /\ PI < vnorm x /\ vnorm x < 2 * PI /\ eps64 < sin (vnorm x / 2) /\ eps64 < - cos (vnorm x / 2).
+Proof. cbv zeta. rewrite vnorm_e1 by lra. unfold eps64. repeat split; interval. Qed.
